@@ -41,8 +41,12 @@ theorem preActions_srcLinked {c : Cfg α} {s : St α} : (preActions c s).fs.srcL
 macro "keep% " b:term : term =>
   `(Base.congr $b rfl rfl rfl rfl rfl rfl rfl rfl rfl rfl (have hsparse := Base.sparse $b; hsparse))
 
-theorem PcInv_done {c : Cfg α} {s : St α} (h : s.pc = .done) : PcInv c s := by
-  unfold PcInv; simp [h]
+theorem PcInv_done {c : Cfg α} {s : St α} (h : s.pc = .done)
+    (hg : s.success = true → c.o.destStdout = false → c.o.mode ≠ .test → Good c s) : PcInv c s := by
+  unfold PcInv; simp only [h]; exact hg
+
+theorem PcInv_done_fail {c : Cfg α} {s : St α} (h : s.pc = .done) (hs : s.success = false) : PcInv c s :=
+  PcInv_done h (by intro h1; rw [hs] at h1; exact absurd h1 (by simp))
 
 section exec
 variable {c : Cfg α} {s : St α} (hsp : SparseOk c.zero c.ops) (i : Inv c s) (hl : s.fs.srcLinked = true)
@@ -52,9 +56,10 @@ theorem exec_openSrc (hpc : s.pc = .openSrc) : Inv c (exec c s) := by
   have b := i.toBase hl
   have h := i.pcinv; simp only [PcInv, hpc] at h
   unfold exec; simp only [hpc]
+  have hs := (b.preMain h.1).2.2.1
   split
-  · exact Base.toInv (keep% b) (PcInv_done rfl)
-  · exact Base.toInv (keep% b) (PcInv_done rfl)
+  · exact Base.toInv (keep% b) (PcInv_done_fail rfl hs)
+  · exact Base.toInv (keep% b) (PcInv_done_fail rfl hs)
   · exact Base.toInv (keep% b) (by simp only [PcInv]; exact h)
 
 include hsp in
@@ -73,8 +78,9 @@ theorem exec_fstatSrc (hpc : s.pc = .fstatSrc) : Inv c (exec c s) := by
 
 theorem exec_closeSrcErr (hpc : s.pc = .closeSrcErr) : Inv c (exec c s) := by
   have b := i.toBase hl
+  have h := i.pcinv; simp only [PcInv, hpc] at h
   unfold exec; simp only [hpc]
-  exact Base.toInv (keep% b) (PcInv_done rfl)
+  exact Base.toInv (keep% b) (PcInv_done_fail rfl h)
 
 omit i hl in
 theorem base_unlinkDst {s : St α} (b : Base c s) (hd : s.destOpen = false) : Base c { s with fs := s.fs.unlinkDstName } := by
@@ -459,8 +465,9 @@ theorem exec_closeSrc (hpc : s.pc = .closeSrc) : Inv c (exec c s) := by
   repeat' split
   all_goals first
     | (have hc' : s.success = true ∧ c.o.keepEff = false := by rename_i hc; simpa [emit] using hc
-       exact Base.toInv (keep% b) (by simp only [PcInv]; exact ⟨hc'.1, hc'.2, h.2.1, h.2.2 hc'.1 hc'.2⟩))
-    | exact Base.toInv (keep% b) (PcInv_done rfl)
+       have fd := fileDest_of_noKeep hc'.2 h.2.1
+       exact Base.toInv (keep% b) (by simp only [PcInv]; exact ⟨hc'.1, hc'.2, h.2.1, h.1, h.2.2 hc'.1 fd.1 fd.2⟩))
+    | exact Base.toInv (keep% b) (PcInv_done rfl h.2.2)
 
 theorem exec_statSrc (hpc : s.pc = .statSrc) : Inv c (exec c s) := by
   have b := i.toBase hl
@@ -469,7 +476,7 @@ theorem exec_statSrc (hpc : s.pc = .statSrc) : Inv c (exec c s) := by
   repeat' split
   all_goals first
     | exact Base.toInv (keep% b) (by simp only [PcInv]; exact h)
-    | exact Base.toInv (keep% b) (PcInv_done rfl)
+    | exact Base.toInv (keep% b) (PcInv_done rfl (fun _ _ _ => h.2.2.2.2))
 
 omit i hl in
 theorem unlinkSrcName_fields (fs : FS α) (h : fs.srcName ≠ some inoOwn) :
@@ -492,21 +499,22 @@ theorem exec_unlinkSrc (hpc : s.pc = .unlinkSrc) : Inv c (exec c s) := by
   have b := i.toBase hl
   have h := i.pcinv; simp only [PcInv, hpc] at h
   obtain ⟨f1, f2, f3, f4, f5, f6⟩ := unlinkSrcName_fields s.fs b.srcName
+  have hgood : Good c { s with fs := s.fs.unlinkSrcName } := by
+    obtain ⟨g1, g2, g3⟩ := h.2.2.2.2
+    refine ⟨?_, ?_, ?_⟩
+    · show s.fs.unlinkSrcName.ownLinked = true; rw [f1]; exact g1
+    · show content s.fs.unlinkSrcName.own = _; rw [f2]; exact g2
+    · intro hs; have := g3 hs
+      show (s.fs.unlinkSrcName.ownSynced && s.fs.unlinkSrcName.dirSynced) = true
+      rw [f3, f4]; exact this
   unfold exec; simp only [hpc]
   repeat' split
   all_goals first
-    | exact Base.toInv (keep% b) (PcInv_done rfl)
+    | exact Base.toInv (keep% b) (PcInv_done rfl (fun _ _ _ => h.2.2.2.2))
     | (refine ⟨by rw [show (_ : St α).fs.dstName = s.fs.unlinkSrcName.dstName from rfl, f5]; exact b.dstName, f6, ?_, ?_,
-          b.pend, b.sparse, b.preMain, by simp [PcInv]⟩
+          b.pend, b.sparse, b.preMain, by simp only [PcInv]; exact fun _ _ _ => hgood⟩
        · intro _
-         refine ⟨rfl, h.1, h.2.1, h.2.2.1, ?_⟩
-         obtain ⟨g1, g2, g3⟩ := h.2.2.2
-         refine ⟨?_, ?_, ?_⟩
-         · show s.fs.unlinkSrcName.ownLinked = true; rw [f1]; exact g1
-         · show content s.fs.unlinkSrcName.own = _; rw [f2]; exact g2
-         · intro hs; have := g3 hs
-           show (s.fs.unlinkSrcName.ownSynced && s.fs.unlinkSrcName.dirSynced) = true
-           rw [f3, f4]; exact this
+         exact ⟨rfl, h.1, h.2.1, h.2.2.1, hgood⟩
        · intro hd
          have := b.openLinked hd
          refine ⟨?_, this.2.1, this.2.2⟩
